@@ -461,9 +461,14 @@ class CallMixin:
                         return True
                     if not any(has) and len(ts) == 1:
                         return False
+            if isinstance(n, str) and isinstance(o, (int, float, str, bytes, list, tuple, dict, set, frozenset, type(None))):
+                return hasattr(o, n)
             return self.decide(f"hasattr({vkey(o)},{vkey(n)})", node)
         if name == "getattr" and len(args) >= 2:
             o, n = args[0], args[1]
+            if isinstance(n, str) and isinstance(o, Obj) and len(args) == 3 and n not in o.fields and not (
+                    o.cls in self.repo.classes and (self.repo.find_method(o.cls, n) or self.repo.field_ann(o.cls, n)[0])):
+                return args[2]
             if isinstance(n, str) and isinstance(o, (Obj, ModRef, ClassRef)):
                 v, _ = self.getattr_ref(o, None, n, node, fr)
                 return v
